@@ -142,7 +142,12 @@ def _c(x, depth=0):
         return x
     if hasattr(x, "value") and hasattr(x, "name"):
         return ("enum", x.name)
-    return ("obj", type(x).__name__, repr(x))
+    if type(x).__name__ == "ComparisonExpression":
+        return ("cmp", getattr(x, "value", None), getattr(getattr(x, "operator", None), "__name__", None))
+    r = repr(x)
+    if " at 0x" in r:  # default object repr carries a memory address: not part of the state
+        r = r.split(" at 0x")[0]
+    return ("obj", type(x).__name__, r)
 
 
 def dump_state(state: State, with_index=True, age_of=None) -> tuple:
